@@ -15,7 +15,7 @@ A construct that is not understood raises AnalysisBroken (exit 2: undecided), ne
 import re
 from .facts import AnalysisBroken
 from .flow import lvalue_key, is_assign, _strip_casts
-from . import linear, loops as LP
+from . import linear, loops as LP, tables
 from .linear import lin_add
 
 
@@ -314,14 +314,29 @@ def check_get_slot(ctx, m, rule):
         else:
             conj.append(c)
     flat(L.child('cond'))
+    # `while (occupied) { if (match) break; step }` continues under the same condition as `while (occupied && !match) { step }`:
+    # leading guard clauses of the body that leave the loop before the cursor advances contribute their negation
+    negated = []
+    body = L.child('body')
+    for st_ in (body.stmts() if body is not None else []):
+        if any(w[0] is st_ or any(y is w[0] for y in st_.walk()) for w in steps) and not (st_.k == 'IfStmt' and st_.child('else') is None and tables._leaves(st_.child('then')) and not any(any(y is w[0] for y in st_.child('then').walk()) for w in steps)):
+            break
+        if st_.k == 'IfStmt' and st_.child('else') is None and tables._leaves(st_.child('then')):
+            g_ = _strip_casts(st_.child('cond'))
+            # the advance may sit inside this guard's condition (`if (++item == limit) item = items;` is the wrap, not a guard): stop there
+            if any(any(y is w[0] for y in g_.walk()) for w in steps):
+                break
+            negated.append(g_)
+        elif st_.k != 'DeclStmt':
+            break
     occs = [c for c in conj if m.occ(c) is not None]
-    others = [c for c in conj if m.occ(c) is None]
+    others = [(c, True) for c in conj if m.occ(c) is None] + [(c, False) for c in negated]
     ok = len(occs) == 1 and m.occ(occs[0]) == (S, True) and len(others) == 1
     if ok:
-        o = others[0]
-        # mismatch: strcmp(S->key, key) != 0   or   S-><field> != <parameter>
+        o, pol_ = others[0]
+        # mismatch: strcmp(S->key, key) != 0   or   S-><field> != <parameter>   (or the negation of the matching test)
         mism = False
-        if o.k == 'BinaryOperator' and o.op == '!=':
+        if o.k == 'BinaryOperator' and o.op == ('!=' if pol_ else '=='):
             l, r = _strip_casts(o.child('lhs')), _strip_casts(o.child('rhs'))
             for a, b in ((l, r), (r, l)):
                 if a.k == 'CallExpr' and a.callee == 'strcmp' and b.cv == 0:
@@ -357,7 +372,7 @@ def check_del(ctx, m, rule):
     # key absent -> false: some `return false` is controlled by EMPTY(S) after the look-up
     ok = False
     for r in rf:
-        if r.id < first.id:
+        if r.pos < first.pos:
             continue
         gd = m.guards(r)
         if any(m.occ(c) == (S, not br) for c, br in gd):
@@ -368,7 +383,7 @@ def check_del(ctx, m, rule):
             ((is_assign(u) or u.k == 'CompoundAssignOperator') and lvalue_key(_strip_casts(u.child('lhs'))) == 'this->count')]
     ok = len(decs) == 1 and decs[0].k == 'UnaryOperator' and m.loop_of(decs[0]) is None
     if ok:
-        ok = all(m.g.node_dominates(decs[0], r) for r in rt) and not any(r.id > decs[0].id for r in rf)
+        ok = all(m.g.node_dominates(decs[0], r) for r in rt) and not any(r.pos > decs[0].pos for r in rf)
     ctx.check(ok, rule, 'table/del/%s/count-once' % m.label, decs[0].loc() if decs else f.loc(), 'count is decremented exactly once, on every path that returns true and on no path that returns false',
               'count is not decremented exactly once per successful deletion (%d update(s))' % len(decs))
     # the repair loop
@@ -482,7 +497,7 @@ def check_resize(ctx, m, rule):
     if S is not None:
         sv = m.slots.get(S)
         # cursor form: S itself walks; index form: S = items + i / &items[i]
-        ref = next((x for x in L.walk() if x.k == 'DeclRefExpr' and lvalue_key(x) == S and x.id > (gd[0][0].id - 1)), None)
+        ref = next((x for x in L.walk() if x.k == 'DeclRefExpr' and lvalue_key(x) == S and x.pos > (gd[0][0].pos - 1)), None)
         ptr = lp.lin(ref, ref) if ref is not None else None
         vis = lp.visits(ptr, 'this->items', {'this->capacity': 1}) if ptr is not None else None
         if ptr is None or lp.trip() is None:
@@ -492,7 +507,7 @@ def check_resize(ctx, m, rule):
     # afterwards: old storage released, then all three fields taken over
     clr = [c for c in f.walk() if c.k == 'CXXMemberCallExpr' and (c.callee or '').endswith('::clear') and _strip_casts(c.child('obj')).k == 'CXXThisExpr']
     take = {fld: asg.get('this->' + fld, []) for fld in ('count', 'capacity', 'items')}
-    ok = len(clr) == 1 and clr[0].id > L.id and all(len(v) == 1 and v[0].id > clr[0].id and lvalue_key(_strip_casts(v[0].child('rhs'))) == T + '.' + fld for fld, v in take.items())
+    ok = len(clr) == 1 and clr[0].pos > L.pos and all(len(v) == 1 and v[0].pos > clr[0].pos and lvalue_key(_strip_casts(v[0].child('rhs'))) == T + '.' + fld for fld, v in take.items())
     ctx.check(ok, rule, 'table/resize/%s/takes-over' % m.label, f.loc(), 'after the loop the old array is cleared and count, capacity and items are taken from the new table',
               'after re-insertion the table does not clear() and then take count, capacity and items from the new table')
 
@@ -517,7 +532,7 @@ def check_has(ctx, m, rule):
     if len(gs) != 1 or gs[0].parent is None or gs[0].parent.k != 'VarDecl':
         raise AnalysisBroken('%s: look-up form not recognised' % m.label)
     S = 'v%d:%s' % (gs[0].parent.d, gs[0].parent.n)
-    rets = [r for r in f.walk() if r.k == 'ReturnStmt' and r.id > gs[0].id]
+    rets = [r for r in f.walk() if r.k == 'ReturnStmt' and r.pos > gs[0].pos]
     ok = len(rets) == 1 and m.occ(rets[0].child('value')) == (S, True)
     ctx.check(ok, rule, 'table/has/%s/occupied' % m.label, f.loc(), 'membership is the occupied test of the slot get_slot returns')
 
@@ -534,7 +549,7 @@ def check_copy_from(ctx, m, rule):
         ok = m.lin(asg['this->count'][0].child('rhs')) == {} and m.lin(asg['this->capacity'][0].child('rhs')) == {pk + '.capacity': 1}
         call = next((c for c in asg['this->items'][0].child('rhs').walk() if c.k == 'CallExpr' and c.callee == 'gdstk::allocate_clear'), None)
         ok = ok and call is not None and (_size_is(m, call.args[0], {'this->capacity': 1}) or _size_is(m, call.args[0], {pk + '.capacity': 1}))
-        ok = ok and asg['this->capacity'][0].id < asg['this->items'][0].id
+        ok = ok and asg['this->capacity'][0].pos < asg['this->items'][0].pos
     ctx.check(ok, rule, 'table/copy_from/%s/storage' % m.label, f.loc(), 'the copy starts empty with the source capacity and a zeroed array of that many items')
     ins = [c for c in f.walk() if c.k == 'CXXMemberCallExpr' and (c.callee or '').split('::')[-1] == m.spec['insert'] and _strip_casts(c.child('obj')).k == 'CXXThisExpr']
     if len(ins) != 1:
@@ -590,7 +605,7 @@ def check_insert(ctx, m, rule):
     ok = bool(grow_empty) and never_full and all(n_ > cap and n_ >= 2 for n_, cap in newcap)
     ctx.check(ok, rule, 'table/insert/%s/grows-before-full' % m.label, gd[0][0].loc(), 'the table grows when empty with capacity 0 and always before its last free slot would be used; the new capacity is larger than the old one',
               'growth test `%s` with new capacity `%s`: grows at (count 0, capacity 0): %s; grows before the last free slot is used: %s; new capacities %s' % (c.text()[:80], rz[0].args[0].text()[:80], bool(grow_empty), never_full, newcap))
-    ok = m.g.node_dominates(gd[0][0], gs[0]) and rz[0].id < gs[0].id
+    ok = m.g.node_dominates(gd[0][0], gs[0]) and rz[0].pos < gs[0].pos
     ctx.check(ok, rule, 'table/insert/%s/grows-before-lookup' % m.label, gs[0].loc(), 'the growth test precedes the slot look-up (a slot found before a resize would dangle)')
 
 
